@@ -107,7 +107,7 @@ def gen_pds(rng):
     return "PDS %s %s %s %d %s" % (hx(lmin), " ".join(hx(x) for x in lo), " ".join(hx(x) for x in hi), len(pts), " ".join(hx(x) for p in pts for x in p)), lmin, pts
 
 
-def gen_ini(rng, force=None):
+def gen_ini(rng, force=None, nc=None):
     shape = force or rng.choice(["cube", "box", "prism", "lshape", "tetra", "tetra", "ellipsoid", "ellipsoid", "ellipsoid", "two_tetra_one_vertex", "torus", "open_box", "fin_on_edge"])
     size = 5e-6
     rejected = shape in ("two_tetra_one_vertex", "torus", "open_box", "fin_on_edge")    # closed-looking or open inputs the acceptance gate must refuse
@@ -163,7 +163,7 @@ def gen_ini(rng, force=None):
         f = f2
     ratio = rng.choice([0.06, 0.1, 0.2, 0.35, 0.5]) if shape != "tetra" else rng.choice([0.06, 0.1, 0.1, 0.2])
     lmin = ratio * size
-    nc = rng.choice([1, 1, 2])
+    nc = nc or rng.choice([1, 1, 2])
     ms = [mesh_tokens(n, f)]
     if nc == 2:
         ms.append(mesh_tokens([[p[0] + 4 * size, p[1], p[2]] for p in n], f))
@@ -244,6 +244,26 @@ def run(ck):
             return -999, "", str(e)
     with ThreadPoolExecutor(vlib.NJOBS) as ex:
         res = list(ex.map(one, cases))
+    # ---- two start-ups in ONE process (as a session that builds several simulations does): a single cell of one shape, then a single
+    # cell of another shape under the same cell id; the second reconstruction is judged like any other (own stream)
+    rng_s = random.Random(ck.seed * 6007 + 14)
+    def fine(shape):
+        while True:
+            c_ = gen_ini(rng_s, force=shape, nc=1)
+            if c_["tri"] == 1 and c_["ratio"] <= 0.2 and c_["wind"] != "mixed":
+                return c_
+    pairs = [(fine(a_), fine(b_)) for a_, b_ in ([("cube", "ellipsoid"), ("ellipsoid", "box"), ("prism", "cube"), ("box", "prism")] * (1 if ck.tier == "quick" else 6))]
+    def two(pr):
+        try:
+            p = vlib.run([impl], input=pr[0]["line"] + "\n" + pr[1]["line"] + "\n", timeout=1500, env={"OMP_NUM_THREADS": "1"})
+            ls_ = p.stdout.strip().split("\n")
+            return p.returncode, (ls_[1] if len(ls_) >= 2 else ""), p.stderr[-500:]
+        except Exception as e:
+            return -999, "", str(e)
+    with ThreadPoolExecutor(vlib.NJOBS) as ex:
+        res2 = list(ex.map(two, pairs))
+    for (a_, b_), r_ in zip(pairs, res2):
+        cases.append(dict(b_, line=a_["line"] + "\n" + b_["line"], shape=b_["shape"] + " (second start-up of the process, after a " + a_["shape"] + ")")); res.append(r_)
     nret = 0; voldev = []; bbdev = []; outcomes = {}
     for c, (rc, out, err) in zip(cases, res):
         key = "%s/%s/%s" % (c["shape"], c["wind"], "tri" if c["tri"] else "notri")
